@@ -209,16 +209,39 @@ def main():
 
     tbe = src("src/tbc_header/encrypt.rs")
     tbd = src("src/tbc_header/decrypt.rs")
-    put("bytes", "tbcSeedEnc", lambda: find_let_array(tbe, "s", "tbc_header/encrypt.rs"), "tbc_header/encrypt.rs EncrypterHalf::new seed `s`")
-    put("bytes", "tbcSeedDec", lambda: find_let_array(tbd, "s", "tbc_header/decrypt.rs"), "tbc_header/decrypt.rs DecrypterHalf::new seed `s`")
+    def tbc_seed(text, what):
+        # the seed literal of this half; when the half no longer holds its own copy (key derivation moved into a shared helper) the
+        # seed is the ONE 16-byte literal of the TBC module — if there are several different ones it is not guessed
+        try:
+            return find_let_array(text, "s", what)
+        except Missing:
+            lits = set()
+            for t in (tbe, tbd, src("src/tbc_header/mod.rs")):
+                for m in re.finditer(r':\s*\[\s*u8\s*;\s*(?:16|SEED_LENGTH|[A-Z_]+)\s*\]\s*=\s*\[([^\]]*)\]\s*;', t):
+                    try:
+                        a = parse_array(m.group(1))
+                    except Exception:
+                        continue
+                    if len(a) == 16:
+                        lits.add(tuple(a))
+            if len(lits) == 1:
+                return list(lits.pop())
+            die("seed literal of %s not found (and the TBC module holds %d different 16-byte literals)" % (what, len(lits)))
+    put("bytes", "tbcSeedEnc", lambda: tbc_seed(tbe, "tbc_header/encrypt.rs"), "tbc_header/encrypt.rs EncrypterHalf::new seed `s` (or the module's single 16-byte literal)")
+    put("bytes", "tbcSeedDec", lambda: tbc_seed(tbd, "tbc_header/decrypt.rs"), "tbc_header/decrypt.rs DecrypterHalf::new seed `s` (or the module's single 16-byte literal)")
 
     wm = src("src/wrath_header/mod.rs")
     put("bytes", "wrathS", lambda: find_array(wm, "S", "wrath_header/mod.rs"), "wrath_header/mod.rs S (client->server)")
     put("bytes", "wrathR", lambda: find_array(wm, "R", "wrath_header/mod.rs"), "wrath_header/mod.rs R (server->client)")
     we = src("src/wrath_header/encrypt.rs")
     wd = src("src/wrath_header/decrypt.rs")
-    put("nat", "wrathLargeThreshold", lambda: rx(r'if\s+size\s*>\s*(0x[0-9A-Fa-f_]+|\d[\d_]*)\s*\{', we, "`if size > <literal> {` in wrath_header/encrypt.rs"),
-        "wrath_header/encrypt.rs: `if size > LIT` in encrypt_server_header")
+    def wrath_threshold():
+        tok = rx(r'if\s+size\s*>\s*([A-Za-z0-9_]+)\s*\{', we, "`if size > X {` in wrath_header/encrypt.rs", str)
+        if re.fullmatch(r'0x[0-9A-Fa-f_]+|\d[\d_]*', tok):
+            return parse_int(tok)
+        # a named constant of the same file
+        return rx(r'const\s+' + tok + r'\s*:\s*\w+\s*=\s*(0x[0-9A-Fa-f_]+|\d[\d_]*)\s*;', we, "constant %s in wrath_header/encrypt.rs" % tok)
+    put("nat", "wrathLargeThreshold", wrath_threshold, "wrath_header/encrypt.rs: `if size > X` in encrypt_server_header (literal or named constant)")
     put("nat", "wrathSetMask", lambda: rx(r'fn\s+set_large_header\s*\(\s*v\s*:\s*u8\s*\)\s*->\s*u8\s*\{\s*v\s*\|\s*(0x[0-9A-Fa-f]+|\d+)\s*\}', we, "set_large_header body `v | LIT`"),
         "wrath_header/encrypt.rs set_large_header: v | LIT")
     put("nat", "wrathClearMask", lambda: rx(r'fn\s+clear_large_header\s*\(\s*v\s*:\s*u8\s*\)\s*->\s*u8\s*\{\s*v\s*&\s*(0x[0-9A-Fa-f]+|\d+)\s*\}', wd, "clear_large_header body `v & LIT`"),
